@@ -206,6 +206,7 @@ structure Facts where
   saveRemovesStale : Tri
   destroyCleansIndex : Tri
   validatesKeys : Tri   -- Save refuses a call that carries an empty key or a key containing '/' (driver extension only)
+  validatesNames : Tri  -- Save and Destroy refuse an index name or a domain that is empty or contains '/' (driver extension only)
   namesVerbatim : Tri   -- core / index swamp names are Sanctuary(const).Realm(indexName).Swamp(domain | key), nothing transformed
   deriving Repr
 
